@@ -24,6 +24,7 @@ pub mod waitset;
 pub mod listeners;
 pub mod filter;
 pub mod ownership;
+pub mod hostile;
 
 #[derive(Clone, Debug, Serialize, Deserialize, PartialEq)]
 pub struct Violation {
@@ -83,6 +84,7 @@ pub fn all() -> Vec<ScenarioDef> {
     v.extend(listeners::defs());
     v.extend(filter::defs());
     v.extend(ownership::defs());
+    v.extend(hostile::defs());
     v
 }
 
